@@ -268,9 +268,23 @@ fn pairs(cfg: &Cfg, seeded: bool) -> Vec<Pair> {
         out.push(Pair {
             name: "one blinding generator".into(),
             a: (*cfg, base.clone(), CTX_A, std_pc.clone()),
-            b: (*cfg, base.clone(), CTX_A, f_pc_gens_from(fg::basis("H"), g)),
+            b: (*cfg, base.clone(), CTX_A, f_pc_gens_from(fg::basis("H"), g.clone())),
             same_public: false,
         });
+        // ... with a zero blinding factor on that generator, so that the commitments (and the witnesses) of the two runs are
+        // equal and the generator itself is the ONLY public input that differs
+        let mut wz = base.clone();
+        for j in 0..cfg.m {
+            wz.blindings[j][cfg.d - 1] = Scalar::ZERO;
+        }
+        if cfg.d >= 2 || wz.values.iter().any(|v| *v != 0) {
+            out.push(Pair {
+                name: "one blinding generator (zero factor on it: equal commitments)".into(),
+                a: (*cfg, wz.clone(), CTX_A, std_pc.clone()),
+                b: (*cfg, wz, CTX_A, f_pc_gens_from(fg::basis("H"), g)),
+                same_public: false,
+            });
+        }
     }
     out
 }
